@@ -634,7 +634,7 @@ class Gen:
                 if rng.random() < 0.3 and not spoofed:
                     spoofed = True
                     kinds.append("spoof")
-                    ops.append("spoof s=" + hx(self.spoof_text(self.argv(t))))
+                    ops.append("spoof s=" + (hx(self.spoof_text(self.argv(t))) if rng.random() < 0.93 else rng.choice(["-", hx(" "), hx("prog")])))
                     self.stats["spoof"] += 1
                 else:
                     kinds.append("cmdline")
@@ -695,7 +695,7 @@ class C14(Prop):
         "sources_are_setting_sequences_env", "sources_are_setting_sequences_cfg", "sources_are_setting_sequences_cmdline",
         "spoof_is_cmdline_of_its_words", "cfg_line_name_arg", "cfg_line_flag", "cfg_line_missing_argument", "cfg_line_unknown_option", "cfgfile_is_its_settings",
         "long_option_eq_form", "long_option_sep_form", "long_flag_form", "short_option_attached_form", "short_option_sep_form", "concatenated_short_flags",
-        "successful_run_is_history", "successful_cfgfile_is_history", "successful_cmdline_is_history", "cmdline_success_is_history", "cfgfile_success_is_history", "environment_success_is_history", "last_setter_wins", "untouched_keeps_state", "fresh_object_all_default", "reuse_restores_defaults",
+        "successful_run_is_history", "successful_cfgfile_is_history", "successful_cmdline_is_history", "cmdline_success_is_history", "cfgfile_success_is_history", "environment_success_is_history", "parsed_settings_are_in_table", "cmdline_last_setter_wins", "cmdline_untouched_keeps_state", "last_setter_wins", "untouched_keeps_state", "fresh_object_all_default", "reuse_restores_defaults",
         "same_source_twice_is_usage_error", "set_after_toggle_by_same_source_is_usage_error",
         "set_option_spec", "toggle_switches_others_off", "optlist_element_denotes_named_option", "optlist_reads_back_names",
         "abbrev_full_name_resolves", "abbrev_resolves_iff_unique", "abbrev_ambiguous_iff_two", "abbrev_unknown_iff",
@@ -775,6 +775,8 @@ class C14(Prop):
                                             W("prog", "--mul=1"), "dump", W("prog", "--mult=two", "--mu"), "dump"], "sticky": 3},
             {"name": "spoof-twice", "ops": T + ["create", "spoof s=" + hx("prog -a --host h1 arg1"), "dump", "spoof s=" + hx("prog -b"), "dump",
                                                 "cfg s=" + hx("-n 3\n"), "dump", "reuse", "spoof s=" + hx("prog -b x"), "verify", "dump"], "sticky": n},
+            {"name": "spoof-empty-twice", "ops": T + ["create", "spoof s=-", "dump", "spoof s=" + hx("prog -a x"), "dump", "reuse",
+                                                      "spoof s=" + hx("   "), "dump", "spoof s=-", "dump", "reuse", "spoof s=" + hx("prog"), "spoof s=" + hx("prog -b"), "dump"], "sticky": n},
             {"name": "spoof-empty", "ops": T + ["create", "spoof s=-", "dump"], "sticky": n},
             {"name": "cfg-errors", "ops": T + ["create", "cfg s=" + hx("-b\n-b\n"), "dump", "cfg s=" + hx("--mu\n"), "cfg s=" + hx("junk\n"),
                                                "cfg s=" + hx("-n 3 4\n"), "cfg s=" + hx("-n 3 # ok\n-x 2\n"), "dump", "cfg s=" + hx("-a arg\n"), "dump"], "sticky": n},
@@ -849,6 +851,13 @@ class C14(Prop):
                     "--multi " + "w" * 300 + "\n"]:
             ops += ["cfg s=" + hx(txt), "verify", "dump", "cfg s=" + hx(txt), "dump", "reuse"]
         cs.append({"name": "cfg-forms", "ops": ops, "sticky": n})
+        # line lengths around the 128-byte chunks of esl_fgets(), with and without the final newline; a fresh object verifies
+        ops = T + ["create", "verify", "dump"]
+        for L in (126, 127, 128, 129, 130, 254, 255, 256, 257, 258, 383, 384, 385):
+            for nl in ("\n", ""):
+                body = "--multi " + "w" * (L - len("--multi ") - len(nl)) + nl
+                ops += ["cfg s=" + hx(body + "-n 4" + nl), "dump", "reuse", "cfg s=" + hx("#" + "c" * (L - 1 - len(nl)) + nl + "-n 5\n"), "dump", "reuse"]
+        cs.append({"name": "cfg-line-lengths", "ops": ops, "sticky": n})
         # every documented range form at and around its bounds
         forms = [("%s<=%s<=%s", 1, 1), ("%s<%s<=%s", 0, 1), ("%s<=%s<%s", 1, 0), ("%s<%s<%s", 0, 0)]
         for ty, v, lo, hi, vals in ((1, "n", "-3", "7", ["-5", "-4", "-3", "-2", "0", "6", "7", "8", "9", "+7", "07", " 7", "7 "]),
